@@ -146,7 +146,15 @@ def run_job(job, rec):
             name = cls.__name__
             ctx = {"case": c, "estimator": name, "kind": kind, "mirrored": mirrored, "n": n, "scale": scale, "shift_in_sd": shift_sd, "input_dtype": str(x_in.dtype)}
             rec.context = ctx
-            E = guarded(cls, x_in)
+            ekw = {}
+            if cls is GaussianKDE and kind not in ("ties", "tied", "counts") and not str(x_in.dtype).startswith(("int", "uint")) and rng.random() < 0.2:
+                # the bandwidth chosen by cross-validation on a random sub-sample (the documented option for large samples)
+                ekw = {"cross_validation": True, "max_cv_samples": int(min(300, max(n // 2, 3)))}
+                ctx["bandwidth"] = "cross-validated on a sub-sample"
+                cv_seed = int(rng.integers(2**31))
+                np.random.seed(cv_seed)
+                rec.count("cases:cross_validated_bandwidth")
+            E = guarded(cls, x_in, **ekw)
             if isinstance(E, Raised):
                 rec.violation("raised", f"{name} construction raised {E!r}", ctx)
                 continue
@@ -327,7 +335,9 @@ def run_job(job, rec):
             if rng.random() < (0.6 if is_kde else 0.35):
                 al = 10.0 ** rng.uniform(-3, 3)
                 be = float(rng.choice([0.0, 5.0, -200.0])) * sd * al
-                E2 = guarded(cls, al * x + be)
+                if ekw:
+                    np.random.seed(cv_seed)       # the same random sub-sample for the rescaled data
+                E2 = guarded(cls, al * x + be, **ekw)
                 rec.count("covariance_reruns")
                 cctx = {**ctx, "a": al, "b": be}
                 if isinstance(E2, Raised):
